@@ -400,6 +400,8 @@ def iteration_vcs(n, first, info, thorough=False):
                 out.append(g.vc(f'shape[{i},{j}]: H+ == n^2/(n^2 - 1) (1 - alpha^2) (H - 2 (1 + n alpha) / ((n + 1)(1 + alpha)) H g g\' H / (g\'Hg)), all from the loop-head H',
                                 step + lem + [wp.end_guard], f'(= {Hend[i][j]} {Hn[i][j]})', line=line, abstract=ab))
         out.append(g.vc('symmetric: H symmetric => H+ symmetric', step + lem + [wp.end_guard, sym(H0)], sym(Hend), line=line, abstract=ab))
+    if n == 2 and not first and thorough:
+        out += containment_vcs(g, wp, x0, g0, H0, f0, fb0, ev['at'], wp.end_env['H'].m, step + lem + [wp.end_guard], line)
     xe = wp.end_env
     out.append(g.vc('evaluation: the function is evaluated once, at x+, into (f, g); update_if_better gets (x+, g+, f+) for the best state',
                     step, conj(['true' if ev['x_key'] == 'x' and ev['g_key'] == 'g' and up['state'] == 'state' else 'false',
@@ -412,4 +414,66 @@ def iteration_vcs(n, first, info, thorough=False):
     out.append(g.vc('best-below: an iteration that continues re-establishes f_best <= f (so alpha >= 0 and 1 + alpha != 0 in the next one)',
                     [wp.end_guard], f'(<= {xe["state.fx"].t} {xe["f"].t})', line=line))
     out.append(g.canary([wp.end_guard]))
+    return out
+
+
+def containment_vcs(g, wp, x, gr, H, f, fb, xp, Hp, base, line):
+    """(n == 2, thorough tier, bonus) the DEFINING property of the deep-cut update, on the code's own x+ and H+:
+         H symmetric positive definite,  z in E(x, H) = {x + H v : v'Hv <= 1},  g'(z - x) <= -(f - f_best)  (z is at least as good as the best point, f convex),
+         0 <= alpha < 1      =>      z in E(x+, H+):  there is w with  H+ w == z - x+  and  w'(z - x+) <= 1.
+    No inverse is needed: z is given through v = H^-1 (z - x), and the witness is w = (1/delta) (v + tau g/s + rho g (g'Hv + tau s) / (g'Hg)), s = sqrt(g'Hg),
+    tau = (1 + n alpha)/(n + 1), delta = n^2/(n^2 - 1) (1 - alpha^2), sigma = 2 (1 + n alpha)/((n + 1)(1 + alpha)), rho = sigma / (1 - sigma)  (Sherman-Morrison).
+    The proof is a chain of obligations (each a VC; later ones take the CONCLUSIONS of earlier ones as hypotheses):
+      witness        H+ w == z - x+                                                   (rational identity in the code's x+, H+)
+      cauchy-schwarz (g'Hv)^2 <= (g'Hg)(v'Hv)                                         (H positive definite; n = 2: the Gram determinant is det(H) det[g v]^2)
+      expansion      w'(z - x+) == (1/delta) (q + 2 tau t + tau^2 + rho (t + tau)^2),  q = v'Hv,  t = g'Hv / s
+      scalar         q <= 1, t <= -alpha, t^2 <= q, 0 <= alpha < 1  =>  (1/delta) (q + 2 tau t + tau^2 + rho (t + tau)^2) <= 1
+      containment    w'(z - x+) <= 1   from the three conclusions above"""
+    n = 2
+    if not (H[0][1] != H[1][0] and all(isinstance(t, str) for r in H for t in r)):
+        raise Unsupported(f'{wp.name}: containment: the loop-head H is not a matrix of distinct constants')
+    h10, h01 = H[1][0], H[0][1]
+    S = lambda t: t.replace(h10, h01)                   # H symmetric (a hypothesis of the claim): one constant for both off-diagonal entries
+    H = [[S(t) for t in r] for r in H]
+    xp, Hp = [S(t) for t in xp], [[S(t) for t in r] for r in Hp]
+    gHg = t_dot(gr, t_matvec(H, gr))
+    root = f'(nv_sqrt {gHg})'
+    alpha = f'(/ (- {f} {fb}) {root})'
+    v = [wp.leaf('v', k) for k in range(n)]
+    Hv = t_matvec(H, v)
+    q = t_dot(v, Hv)
+    gHv = t_dot(gr, Hv)
+    zx = [f'(+ {a} (- {b} {c}))' for a, b, c in zip(Hv, x, xp)]            # z - x+ == H v + (x - x+)
+    tau = f'(/ (+ 1.0 (* 2.0 {alpha})) 3.0)'
+    delta = f'(* (/ 4.0 3.0) (- 1.0 (* {alpha} {alpha})))'
+    rho = f'(/ (* 2.0 (+ 1.0 (* 2.0 {alpha}))) (- 1.0 {alpha}))'          # sigma / (1 - sigma) for n = 2, sigma = 2 (1 + 2 alpha) / (3 (1 + alpha))
+    w = [f'(/ (+ {v[k]} (/ (* {tau} {gr[k]}) {root}) (/ (* {rho} {gr[k]} (+ {gHv} (* {tau} {root}))) {gHg})) {delta})' for k in range(n)]
+    pd = [f'(> {H[0][0]} 0.0)', f'(> (- (* {H[0][0]} {H[1][1]}) (* {H[0][1]} {H[1][0]})) 0.0)']
+    sq = f'(= (* {root} {root}) {gHg})'
+    # what the step path gives (obligation `lemma`), plus the admissible depth alpha < 1
+    known = [f'(> {gHg} 0.0)', f'(> {root} 0.0)', f'(>= {alpha} 0.0)', f'(< {alpha} 1.0)', sq]
+    ab = ([alpha, root], 'deepcut')                      # g'Hg stays the polynomial it is: the identities cancel it against H g g' H
+    saved, g.hyps = g.hyps, []                           # the chain needs none of the facts about done() / the counters
+    try:
+        out = []
+        for k in range(n):
+            out.append(g.vc(f'containment/witness[{k}]: H+ w == z - x+ for w = (1/delta)(v + tau g/s + rho g (g\'Hv + tau s)/(g\'Hg)), z = x + H v (H symmetric)', known,
+                            f'(= {t_dot(Hp[k], w)} {zx[k]})', line=line, abstract=ab, timeout=90))
+        cs = f'(<= (* {gHv} {gHv}) (* {gHg} {q}))'
+        out.append(g.vc('containment/cauchy-schwarz: H symmetric positive definite => (g\'Hv)^2 <= (g\'Hg)(v\'Hv)', pd, cs, line=line, timeout=120))
+        t = f'(/ {gHv} {root})'
+        W = t_dot(w, zx)
+        form = f'(/ (+ {q} (* 2.0 {tau} {t}) (* {tau} {tau}) (* {rho} (+ {t} {tau}) (+ {t} {tau}))) {delta})'
+        out.append(g.vc('containment/expansion: w\'(z - x+) == (1/delta)(q + 2 tau t + tau^2 + rho (t + tau)^2), q = v\'Hv, t = g\'Hv / sqrt(g\'Hg)', known,
+                        f'(= {W} {form})', line=line, abstract=ab, timeout=90))
+        cut = f'(<= {gHv} (- (* {alpha} {root})))'
+        out.append(g.vc('containment/cut: the premise g\'(z - x) <= -(f - f_best) is g\'Hv <= -alpha sqrt(g\'Hg)', known + [f'(<= {gHv} (- (- {f} {fb})))'], cut, line=line))
+        facts = [cs, sq, f'(> {root} 0.0)', f'(>= {alpha} 0.0)', f'(< {alpha} 1.0)', f'(<= {q} 1.0)', cut]
+        out.append(g.vc('containment/scalar: q <= 1, t <= -alpha, t^2 <= q, 0 <= alpha < 1 => (1/delta)(q + 2 tau t + tau^2 + rho (t + tau)^2) <= 1', facts,
+                        f'(<= {form} 1.0)', line=line, abstract=([alpha, root, gHg, gHv, q], 'scalar'), timeout=120))
+        out.append(g.vc('containment: z = x + H v in E(x, H), g\'(z - x) <= -(f - f_best), 0 <= alpha < 1 => z in E(x+, H+): w\'(z - x+) <= 1 for the witness w '
+                        '(from the conclusions of expansion and scalar)', [f'(= {W} {form})', f'(<= {form} 1.0)'],
+                        f'(<= {W} 1.0)', line=line, abstract=([W, form], 'contain'), timeout=60))
+    finally:
+        g.hyps = saved
     return out
